@@ -31,6 +31,9 @@ extern "C" void harness_main() {
   hv::BuildContext(model);
   model.Emplace(semantic::CstType::structured, "X1\xC3\x97\xE2\x84\xAC(X1)");                                      // S3
   model.Emplace(semantic::CstType::function, "[\xCE\xB1\xE2\x88\x88\xE2\x84\xAC(X1)] F1[\xCE\xB1\xE2\x88\xAAX1, debool({1})]\xE2\x88\xA9\xCE\xB1");   // F2: nested call
+  // F3, F4: bodies whose ROOT is a construct that the normaliser rewrites (tuple pattern, multi-variable quantifier)
+  model.Emplace(semantic::CstType::function, "[\xCE\xB1\xE2\x88\x88\xE2\x84\xAC(X1\xC3\x97X1)] I{(\xCE\xB6,\xCE\xBE) | (\xCE\xBE,\xCE\xB6):\xE2\x88\x88\xCE\xB1}");
+  model.Emplace(semantic::CstType::predicate, "[\xCE\xB1\xE2\x88\x88\xE2\x84\xAC(X1)] \xE2\x88\x80\xCE\xBE,\xCE\xB6\xE2\x88\x88\xCE\xB1 \xCE\xBE=\xCE\xB6");   // P2
   auto uid = [&](const char* a) { return model.Core().FindAlias(a).value(); };
   const std::string text = hv::GenExpression();
   auto auditor = model.RSLang().MakeAuditor();
@@ -62,7 +65,7 @@ extern "C" void harness_main() {
   ref::DataEnv env;
   for (const char* g : GLOBALS) if (const auto v = dataCtx(g); v.has_value()) env.globals.emplace_back(g, ref::FromSData(*v));
   const auto astCtx = model.RSLang().ASTContext();
-  for (const char* f : {"F1", "F2", "P1"}) if (const auto* tree = astCtx(f); tree != nullptr) env.functions.emplace_back(f, tree);
+  for (const char* f : {"F1", "F2", "F3", "P1", "P2"}) if (const auto* tree = astCtx(f); tree != nullptr) env.functions.emplace_back(f, tree);
   const ref::EvalResult want = ref::Eval(auditor->AST(), env, 64, 20000);
 
   Interpreter interp(model.RSLang(), astCtx, dataCtx);
